@@ -1,6 +1,6 @@
 import CanvasProofs.Lemmas.C05
 
-/-! # dashStart after the repair 8d5b47c (negative offsets reduced modulo the period)
+/-! # dashStart after the repair e14817f (negative offsets reduced modulo the period)
 
 Full-strength start invariant of `Canvas.C05.dashStart` for ALL offsets. `fmod` (`math.Mod`) is a
 parameter: only its defining property `FmodSpec` is used (`fmod x P = x + q·P` for some whole `q`,
